@@ -252,7 +252,7 @@ func (c *Ctx) btValidate(label string, engines []string, progs [][]bt.Op, classi
 			continue
 		}
 		if len(rj) == 0 {
-			c.Inconclusive("%s/%s: rejection of trace %d step %d (%s) did not reproduce", label, r.Engine, r.Tr, r.I, r.Ev)
+			c.Unreproduced("%s/%s: rejection of trace %d step %d (%s) did not reproduce", label, r.Engine, r.Tr, r.I, r.Ev)
 			continue
 		}
 		confirmed++
